@@ -38,6 +38,7 @@ def prototypes(rng, K, D, complex_):
 
 
 _C3 = [0]
+_MKC = {}
 
 
 def make_scene(rng, name, tier, force=None):
@@ -158,7 +159,7 @@ def evaluate(rp, rng):
     init, lab, protos = np.array(rp['init']), np.array(rp['labels']), {k: np.array(v) for k, v in rp['protos'].items()}
     K = init.shape[-2]
     try:
-        model, trace = mm.fit(name, data, init, iterations=rp['iterations'], **(rp.get('opts') or {}))
+        model, trace = mm.fit(name, data, init, iterations=rp['iterations'], container=rp.get('container'), **(rp.get('opts') or {}))
         aff = mm.predict(name, model, data)
     except Exception as e:
         cls = 'exact-prototypes' if rp.get('pert', 1.0) == 0.0 else 'perturbed'
@@ -240,6 +241,8 @@ def make(rng, tier, name=None, force=None):
             protos['spectral'][f] = protos['spectral'][0]
     rp = {'model': name, 'data': data, 'init': init, 'labels': lab, 'protos': protos, 'iterations': info['iterations'],
           'pert': info['pert'], 'blur': info['blur']}
+    _MKC[name] = _MKC.get(name, 0) + 1
+    rp['container'] = _MKC[name] % 3            # plain / reused trainer with refilled buffers / views: every model, every run
     if name in ('vmfmm', 'vmfcacgmm') and rng.random() < 0.5:
         # a configuration: the concentration cap (tight classes reach it)
         rp['opts'] = {'max_concentration': float(rng.choice([100, 1000, 3000]))}
